@@ -54,8 +54,29 @@ Definition update_from_list (s : slot) (l : list pair_t) : slot :=
   | None => mk_slot None (s_has_sp s) l
   end.
 
+(* The parser the protocol runs: the Standard's state machine (Spec.Url) or the model of the
+   C++ parser (Impl.Parser).  Both are run against the library by the correspondence check. *)
+Record parser_ops := mk_ops {
+  p_parse : str -> option url -> presult;                 (* input already decoded, not yet stripped *)
+  p_override : str -> url -> pstate -> presult;           (* parser with a given url and state override *)
+  p_protocol : url -> str -> url;                         (* the protocol setter *)
+  p_can_parse : str -> option url -> bool }.              (* url::can_parse (need_save = false) *)
+
 Section WithIdna.
 Variable idna : list N -> option (list N).
+Variable ops : parser_ops.
+
+Definition g_or_unchanged (u : url) (r : presult) : url := match r with POk u' => u' | PFail u' => u' | POutOfFuel => u end.
+Definition g_origin (u : url) : str :=
+  if str_eqb (scheme u) s_blob then
+    match p_parse ops (path_serialize u) None with
+    | POk pu => if str_eqb (scheme pu) s_http || str_eqb (scheme pu) s_https then tuple_origin pu else s_null
+    | _ => s_null
+    end
+  else if is_some (default_port (scheme u)) then tuple_origin u
+  else s_null.
+
+(* the Standard's parser as parser_ops is defined after the section (spec_ops) *)
 
 (* ---------- object-level operations on slots (C05/C06) ---------- *)
 Inductive obj_op := OCopyAssign | OCopyCtor | OMoveAssign | OMoveCtor | OSafeAssign | OSwap.
@@ -135,7 +156,7 @@ Definition url_eqb (a b : url) : bool :=
   && opt_eqb str_eqb (query a) (query b) && opt_eqb str_eqb (fragment a) (fragment b).
 
 Definition is_fresh (u : url) : bool :=
-  match basic_parse idna (serialize u false) None with
+  match p_parse ops (serialize u false) None with
   | POk u' => url_eqb u' u
   | _ => false
   end.
@@ -148,7 +169,7 @@ Definition real_port (u : url) : str :=
   end.
 
 Definition obs (u : url) : str :=
-  lit "href=" ++ hx (serialize u false) ++ lit " origin=" ++ hx (origin idna u) ++
+  lit "href=" ++ hx (serialize u false) ++ lit " origin=" ++ hx (g_origin u) ++
   lit " protocol=" ++ hx (get_protocol u) ++ lit " username=" ++ hx (username u) ++
   lit " password=" ++ hx (password u) ++ lit " host=" ++ hx (get_host u) ++
   lit " hostname=" ++ hx (get_hostname u) ++ lit " port=" ++ hx (get_port u) ++
@@ -182,8 +203,15 @@ Definition usp_state_str (l : list pair_t) : str :=
 Definition do_parse (e : enc) (units : list N) (base : option (option url)) : option url :=
   match base with
   | Some None => None                                 (* invalid base object *)
-  | Some (Some b) => match basic_parse idna (decode_for_parser true e units) (Some b) with POk u => Some u | _ => None end
-  | None => match basic_parse idna (decode_for_parser true e units) None with POk u => Some u | _ => None end
+  | Some (Some b) => match p_parse ops (decode_for_parser true e units) (Some b) with POk u => Some u | _ => None end
+  | None => match p_parse ops (decode_for_parser true e units) None with POk u => Some u | _ => None end
+  end.
+
+Definition do_can_parse (e : enc) (units : list N) (base : option (option url)) : bool :=
+  match base with
+  | Some None => false
+  | Some (Some b) => p_can_parse ops (decode_for_parser true e units) (Some b)
+  | None => p_can_parse ops (decode_for_parser true e units) None
   end.
 
 Inductive setter := SHref | SProtocol | SUsername | SPassword | SHost | SHostname | SPort | SPathname | SSearch | SHash.
@@ -193,26 +221,30 @@ Inductive setter := SHref | SProtocol | SUsername | SPassword | SHost | SHostnam
 Definition apply_setter (w : setter) (u : url) (e : enc) (units : list N) : url :=
   let v := decode_for_parser false e units in
   match w with
-  | SHref => match basic_parse idna (decode_for_parser true e units) None with POk u' => u' | _ => u end
-  | SProtocol => setter_protocol idna u v
+  | SHref => match p_parse ops (decode_for_parser true e units) None with POk u' => u' | _ => u end
+  | SProtocol => p_protocol ops u v
   | SUsername => setter_username u (decode_units e units)
   | SPassword => setter_password u (decode_units e units)
-  | SHost => setter_host idna u v
-  | SHostname => setter_hostname idna u v
-  | SPort => setter_port idna u v
-  | SPathname => setter_pathname idna u v
+  | SHost => if has_opaque_path u then u else g_or_unchanged u (p_override ops v u Host)
+  | SHostname => if has_opaque_path u then u else g_or_unchanged u (p_override ops v u Hostname)
+  | SPort => if cannot_have_username_password_port u then u
+             else match units with
+                  | [] => set_port u None
+                  | _ => g_or_unchanged u (p_override ops v u Port)
+                  end
+  | SPathname => if has_opaque_path u then u else g_or_unchanged u (p_override ops v (set_path u (PList [])) PathStart)
   | SSearch =>
       (* the empty test and the leading '?' are looked at before tab/newline removal *)
       match units with
-      | [] => setter_search idna u []
-      | 63 :: r => or_unchanged u (basic_parse_override idna (decode_for_parser false e r) (set_query u (Some [])) Query)
-      | _ => or_unchanged u (basic_parse_override idna v (set_query u (Some [])) Query)
+      | [] => potentially_strip (set_query u None)
+      | 63 :: r => g_or_unchanged u (p_override ops (decode_for_parser false e r) (set_query u (Some [])) Query)
+      | _ => g_or_unchanged u (p_override ops v (set_query u (Some [])) Query)
       end
   | SHash =>
       match units with
-      | [] => setter_hash idna u []
-      | 35 :: r => or_unchanged u (basic_parse_override idna (decode_for_parser false e r) (set_fragment u (Some [])) Fragment)
-      | _ => or_unchanged u (basic_parse_override idna v (set_fragment u (Some [])) Fragment)
+      | [] => potentially_strip (set_fragment u None)
+      | 35 :: r => g_or_unchanged u (p_override ops (decode_for_parser false e r) (set_fragment u (Some [])) Fragment)
+      | _ => g_or_unchanged u (p_override ops v (set_fragment u (Some [])) Fragment)
       end
   end.
 
@@ -273,3 +305,8 @@ Definition slot_sp_apply (sl : slot) (op : spop) : slot * str * list pair_t :=
   (if upd then update_from_list sl l' else mk_slot (s_url sl) true l', extra, l').
 
 End WithIdna.
+
+(* the two instances *)
+Definition spec_ops (idna : list N -> option (list N)) : parser_ops :=
+  mk_ops (basic_parse idna) (basic_parse_override idna) (setter_protocol idna)
+         (fun input base => match basic_parse idna input base with POk _ => true | _ => false end).
